@@ -34,7 +34,7 @@ def Res.render (r : Res) : String :=
   let st := if r.agree && r.monitor then "ok" else if r.monitor then "diff"
     else if r.agree && r.finding != "" then s!"known:{r.finding}"
     else if r.agree then "monfail" else "both"
-  s!"{st}|{if r.nontrivial then 1 else 0}|{r.model}|{r.note}"
+  s!"{st}|{if r.nontrivial then 1 else 0}|{r.model}|{(r.note.replace "\n" " ")}"
 
 def joinComma (xs : List String) : String := ",".intercalate xs
 
